@@ -20,3 +20,20 @@ Theorem C04_level_exact : forall scandir segmatch cf fuel curdir m dir_only gf h
   In (pjoin curdir name, if is_special name then true else isdir) hits.
 Proof. exact glob_dir_shallow_complete. Qed.
 Print Assumptions C04_level_exact.
+
+(* Glob.__init__ (flag processing translated from the source on every run): for every flag word, with or without
+   `exclude=`, on a non-Windows platform the walker and its matchers run with PATHNAME and never with Windows rules;
+   NODOTDIR is forced unless SCANDOTDIR; `**` follows links iff FOLLOW and not GLOBSTARLONG; the exclusion patterns get
+   DOTMATCH and no globstar capture *)
+From WC.Proofs Require GlobInit.
+Theorem C04_glob_init_table : forall P he f, plat_windows P = false ->
+  let '(nounique, mark, scandotdir, negateall, nodir, pathlib, fl, nfl, raw, dot, unix, negate, gsl, gs, follow, braces, mb, cs) :=
+      glob_init_flags P he f in
+  Z.testbit fl 5 = true /\ Z.testbit fl 16 = false /\ unix = true /\
+  (scandotdir = false -> Z.testbit fl 20 = true) /\
+  follow = Z.testbit fl 11 && negb (Z.testbit fl 21) /\
+  gs = Z.testbit fl 21 || Z.testbit fl 8 /\ gsl = Z.testbit fl 21 /\
+  Z.testbit nfl 6 = true /\ Z.testbit nfl 36 = true /\
+  dot = Z.testbit fl 6 /\ cs = get_case P fl.
+Proof. exact GlobInit.glob_init_table. Qed.
+Print Assumptions C04_glob_init_table.
